@@ -69,6 +69,32 @@ Theorem C17_glr_model_sound :
 Proof. intros c inp fuel pos start nodes root _. exact (glr_full_sound c inp fuel pos start nodes root). Qed.
 Print Assumptions C17_glr_model_sound.
 
+(* consume_input off, under the boolean conditions evaluated by the harness (glr_tok_checks0:
+   ws layout, STOP never matched or shifted, ACCEPT only under STOP, no two terminals matching
+   with different lengths at one position of this input): every tree of the model's forest is a
+   derivation from the start symbol whose leaves begin right after the leading layout, are
+   matched by their recognizers and are separated by layout only: a derivation of a PREFIX of
+   the input.  (The merge of all accepted heads' links into the last one in Forest.__init__ can
+   make that link its own child in cyclic grammars; the proof shows that the alternatives of
+   shorter prefixes that enter this way still yield prefix derivations.) *)
+From PV Require Import Proofs.GLRTokProofs Proofs.GLRTokFull.
+Theorem C17_glr_model_prefix_valid :
+  forall (c : pconf) (inp : pinput) (fuel : nat) (pos start : N) (nodes : forest) (root : nat),
+    table_struct (pc_g c) (pc_tb c) start = true ->
+    glr_tok_checks0 c inp = true ->
+    glr_parse_full c inp fuel pos = GLRForest nodes root ->
+    forall t, unfolds (glr_forest nodes root) (pred (length (glr_forest nodes root))) t ->
+      wf_tree (pc_g c) t /\ root_sym (pc_g c) t = Some (NT start) /\
+      chain_ok (skip_ws (pc_ws c) inp) (leaves t) /\ All (leaf_ok (tokok_of inp)) (leaves t) /\
+      match bounds (leaves t) with
+      | None => pc_consume c = true -> skip_ws (pc_ws c) inp pos = in_len inp
+      | Some (fs, le) =>
+          fs = skip_ws (pc_ws c) inp pos /\
+          (pc_consume c = true -> le <= in_len inp /\ skip_ws (pc_ws c) inp le = in_len inp)
+      end.
+Proof. exact glr_full_tok_sound_any. Qed.
+Print Assumptions C17_glr_model_prefix_valid.
+
 (* "all derivations of all sentence prefixes" is FALSE of the faithful model: S: A A A | EMPTY;
    A: S 'b' | EMPTY;  consume_input=False, input "b": a certified derivation of a prefix is
    missing from the forest (KF-C17-lost-derivations) *)
